@@ -1893,7 +1893,11 @@ def check_crosstab_keys(prog, rep, m, entry):
         sel = any('in(' in repr(g_) and any(c_ in repr(g_) for c_ in CI) for g_ in guards)
         okall = okall and okk and okc and sel
         n += 1
-        rep.add('X-key', f, entry, 'count stored per category: %s' % (kshow(v, 90) if v is not None else None), node.lineno, okk and okc and sel,
+        verdict = okk and okc and sel
+        if not okc and v is not None and any(isinstance(a_, App) and a_.name.startswith('ext:') and a_.name not in ('ext:numpy.sort',)
+                                             for a_ in walk_atoms(v)):
+            verdict = None if (okk and sel) else False      # the count goes through a library function the rule does not model (np.diff ...)
+        rep.add('X-key', f, entry, 'count stored per category: %s' % (kshow(v, 90) if v is not None else None), node.lineno, verdict,
                 'the count of a category is its own break minus the previous break (the running break starts at 0 and advances '
                 'to the category\'s break for EVERY category), stored under that category, for the selected categories '
                 '(key ok: %s, count ok: %s, selection ok: %s)' % (okk, okc, sel))
